@@ -164,6 +164,10 @@ def map_error(d, lines, fn_of, blk_of, lab_of, fname):
             if b:
                 callee = b[0]
         where = lines[s0['line_start'] - 1].strip() if s0 else ''
+        # a callee's `wf(...)` precondition failing means the representation invariant is broken at that point
+        wf_pre = any(blk_of[s['line_start']] and re.search(r'\bwf\(', lines[s['line_start'] - 1]) for s in sec)
+        if wf_pre:
+            return '%s/callee_wf' % f, 'precondition', 'wf required by %s does not hold at: %s' % (callee, where), f
         return '%s/safety' % f, 'precondition', 'call %s at: %s' % (callee, where), f
     # any span inside a woven block with a label?
     for s in prim + sec:
